@@ -22,6 +22,7 @@ import (
 	"filippo.io/mldsa"
 	"filippo.io/sunlight/internal/verifsim/core"
 	"filippo.io/sunlight/internal/witness"
+	"filippo.io/torchwood"
 	"golang.org/x/mod/sumdb/tlog"
 )
 
@@ -492,7 +493,14 @@ func (w *World) quiesce() {
 // ---------------------------------------------------------------------------
 // requests
 
+type signedHeader struct {
+	s, e  int64
+	h     tlog.Hash
+	proof torchwood.SubtreeProof
+}
+
 type request struct {
+	subProof torchwood.SubtreeProof
 	id     int
 	kind   string // addckpt | addentries | subtree
 	g      *glog
